@@ -57,7 +57,7 @@ RECEIVER = {   # receiver variable name -> classes its methods resolve to
     'obj': ('Entity',), 'item': ('Entity',), 'val': ('Entity',), 'robj': ('Entity',),
     'self': ('TrackedValue',),
 }
-DB_CALLS = {'_exec_sql', '_get_cache', '_find_in_db_', '_fetch_objects', '_get_by_raw_pkval_', '_select_all', '_prefetch_load_all_',
+DB_CALLS = {'_exec_sql', '_get_cache', '_find_in_db_', '_fetch_objects', '_get_by_raw_pkval_', '_select_all', '_prefetch_load_all_', '_load_many_',
             'prefetch_load_all'}
 PURE = {'isinstance', 'len', 'bool', 'set', 'sorted', 'tuple', 'list', 'iter', 'next', 'enumerate', 'zip', 'range', 'map', 'str',
         'repr', 'safe_repr', 'type', 'hasattr', 'getattr', 'join', 'union', 'difference', 'items', 'keys', 'values',
